@@ -491,7 +491,7 @@ fn one_history(cfg: &Cfg, out: &mut Out, r: &mut Rng, hist_no: u64) {
 
 pub fn run(cfg: &Cfg, out: &mut Out) {
     let mut r = cfg.rng(20);
-    let n = cfg.n(30, 800);
+    let n = cfg.n(30, 300);
     for hist_no in 0..n {
         one_history(cfg, out, &mut r, hist_no);
     }
